@@ -311,6 +311,32 @@ def run(rep, facts, config='default'):
             continue
         ok, why = write_code_unit_shape(b)
         rep.ob('R-HANDLE.wcu', d, ok, why, sp_str(b.raw['span']), {'shape': 'slice[pos] = u; pos += 1'}, config)
+    # ByteDestination::write_N: every byte of the split-off prefix is stored (indices 0..k-1, each once)
+    for n, b in sorted(facts.bodies.items()):
+        if not n.startswith('handles::ByteDestination::write_'):
+            continue
+        ks = [op_int(t['args'][1]) for bi, t in b.calls() if (b.callee(t) or '').endswith('::split_at_mut')]
+        firsts = [1 for bi, t in b.calls() if (b.callee(t) or '').endswith('::split_first_mut')]
+        if not ks and not firsts:
+            continue
+        k = ks[0] if ks else 1
+        idxs = []
+        r = Resolver(b)
+        for blk in b.blocks:
+            for st in blk['s']:
+                if 'assign' in st and st['assign']['p'] and st['assign']['p'][0] == 'deref':
+                    ix = [e for e in st['assign']['p'] if isinstance(e, dict) and 'index' in e]
+                    fl = [e for e in st['assign']['p'] if isinstance(e, dict) and 'field' in e]
+                    if fl:
+                        continue
+                    if ix:
+                        v = r.local(ix[0]['index'])
+                        idxs.append(v[1] if v[0] == 'c' else None)
+                    elif len(st['assign']['p']) == 1 and b.locals[st['assign']['l']]['ty'].endswith('mut u8'):
+                        idxs.append(0)
+        rep.ob('R-HANDLE.full-store', n, sorted(x for x in idxs if x is not None) == list(range(k)) and None not in idxs,
+               'the %d bytes split off the destination are not each stored exactly once (stored indices %r): the reported count would cover a byte the call did not write' % (k, idxs),
+               sp_str(b.raw['span']), {'split': k, 'stored_indices': idxs}, config)
     return cap_use
 
 
